@@ -85,8 +85,12 @@ void search<T, ES>::tune_parameters()
   const environment dflt(ES<T>::shape(environment().init()));
   const environment constrained(prob_.env);
 
+  // A default value must not contradict a parameter set by the user: every
+  // default is adjusted to the related parameters that are already defined.
+
   if (!constrained.mep.code_length)
-    prob_.env.mep.code_length = dflt.mep.code_length;
+    prob_.env.mep.code_length = std::max(dflt.mep.code_length,
+                                         constrained.mep.patch_length + 1);
 
   if (!constrained.mep.patch_length)
     prob_.env.mep.patch_length =
@@ -109,16 +113,22 @@ void search<T, ES>::tune_parameters()
     prob_.env.layers = dflt.layers;
 
   if (!constrained.individuals)
-    prob_.env.individuals = dflt.individuals;
+    prob_.env.individuals = std::max({dflt.individuals,
+                                      constrained.min_individuals,
+                                      constrained.tournament_size});
 
   if (!constrained.min_individuals)
-    prob_.env.min_individuals = dflt.min_individuals;
+    prob_.env.min_individuals = std::min(dflt.min_individuals,
+                                         prob_.env.individuals);
 
   if (!constrained.tournament_size)
-    prob_.env.tournament_size = dflt.tournament_size;
+    prob_.env.tournament_size =
+      std::min({dflt.tournament_size, prob_.env.individuals,
+                constrained.mate_zone ? constrained.mate_zone
+                                      : dflt.tournament_size});
 
   if (!constrained.mate_zone)
-    prob_.env.mate_zone = dflt.mate_zone;
+    prob_.env.mate_zone = std::max(dflt.mate_zone, prob_.env.tournament_size);
 
   if (!constrained.generations)
     prob_.env.generations = dflt.generations;
